@@ -18,6 +18,9 @@ tried_text = ""
 if tried:
     tried_text = ("\nIdeas that were ALREADY used in an earlier round for this property - do NOT repeat them or close variants; pick different code sites / mechanisms:\n"
                   + "\n".join(tried) + "\n")
+hint = os.environ.get("HINT", "")
+if hint:
+    hint = "\nFor this round: " + hint + "\n"
 print(f"""You are helping to stress-test an (unseen) verification framework for the Go library hashicorp/go-slug
 (module github.com/hashicorp/go-slug): packs/unpacks Terraform 'slug' tar.gz archives, parses module source addresses,
 builds multi-package source bundles.
@@ -32,7 +35,7 @@ Statement: {p['statement']}
 Quantified over: {p['quantifier']['text']}
 Relevant files: {', '.join(p['anchors']['files'])}
 
-{tried_text}
+{tried_text}{hint}
 TASK: write TWO different, independent, realistic changes (call them m1 and m2, at different code sites or with different
 mechanisms) to the library's NON-test source, each of which BREAKS this property while
   (a) the module still compiles,
@@ -52,4 +55,6 @@ For each change mK (K=1,2) deliver under {wt}/_out/mK/ :
   - meta.json : {{"property": "{p['id']}", "summary": "...", "needs_to_manifest": "...", "files_changed": [...], "how_verified": "commands you ran and what you saw"}}
 You must verify all of this yourself: with the patch applied the suite passes and the demo fails; with the patch reverted the demo
 passes. Finally leave the worktree clean of tracked changes (git checkout -- . ; remove copied demo tests), keeping only the
-untracked _out/ directory. Reply with a 5-line summary of the two changes.""")
+untracked _out/ directory. Reply with a 5-line summary of the two changes. If, while reading, you notice that the UNMODIFIED
+code already violates this property for some input or sequence, add a "Side finding:" paragraph with a minimal reproducer
+(verify it by running it) - otherwise do not mention side findings.""")
